@@ -47,7 +47,7 @@ func shapes() []shape {
 
 func runC16(env core.Env, rep *core.Report) {
 	rep.Rule = "one evaluation = one HTTP request (route x parameter/body alphabet) on one store shape under one auth mode; non-trivial = at least one parameter or the body is not a well-formed value of its type (or names a stale/orphan/genesis/unknown header); distinct by (store, auth mode, method, target, body)"
-	rep.Bound = "[complete product per route of the path/query/body alphabets (8 hash forms, 11 integer forms, 13-15 body forms) on 3 store shapes x {auth off, auth on with a valid token}]"
+	rep.Bound = "[complete product per route of the path/query/body alphabets (8 hash forms, 11 integer forms, 13-15 body forms) on 3 store shapes x {auth off, auth on with the admin token, auth on with an issued token}]"
 	job := 0
 	all := shapes()
 	if env.Tier == "thorough" {
@@ -59,7 +59,10 @@ func runC16(env core.Env, rep *core.Report) {
 		})
 	}
 	for si, sh := range all {
-		for _, auth := range []bool{false, true} {
+		for _, auth := range []string{"off", "admin", "user"} {
+			if auth == "user" && si >= 3 {
+				continue // the issued-token mode runs on the three hand-made shapes
+			}
 			job++
 			if !env.Mine(job) || rep.Expired() {
 				continue
@@ -69,7 +72,8 @@ func runC16(env core.Env, rep *core.Report) {
 	}
 }
 
-func c16store(rep *core.Report, sh shape, auth bool, mutateBodies bool) {
+func c16store(rep *core.Report, sh shape, authMode string, mutateBodies bool) {
+	auth := authMode != "off"
 	u := core.Fabricate(sh.b, 0)
 	path := core.NewStoreFile()
 	rig := core.OpenRig(path, core.RigOpts{Cfg: func(c *config.AppConfig) { c.HTTP.UseAuth = auth }})
@@ -194,8 +198,21 @@ func c16store(rep *core.Report, sh shape, auth bool, mutateBodies bool) {
 	if auth {
 		hdrBase = adminHdr(rig)
 	}
+	if authMode == "user" {
+		// an issued (non-admin) token, presented on every request - also on the admin-only routes,
+		// where the answer must be a structured 401
+		r := api.Do("POST", "/api/v1/access", nil, adminHdr(rig))
+		var tok struct {
+			Token string `json:"token"`
+		}
+		if r.Code != 200 || !r.JSON(&tok) || tok.Token == "" {
+			rep.HarnessError("cannot issue a token: " + trunc(r.Body))
+			return
+		}
+		hdrBase = map[string]string{"Authorization": "Bearer " + tok.Token}
+	}
 	before := core.Digest(core.DumpHeaders(rig.DB))
-	mode := map[bool]string{false: "auth-off", true: "auth-on(admin token)"}[auth]
+	mode := map[string]string{"off": "auth-off", "admin": "auth-on(admin token)", "user": "auth-on(issued token)"}[authMode]
 	for _, rq := range reqs {
 		hdr := map[string]string{}
 		for k, v := range hdrBase {
@@ -221,7 +238,7 @@ func c16store(rep *core.Report, sh shape, auth bool, mutateBodies bool) {
 			rq2 := rq
 			rq2.Target, rq2.Body = clip(rq.Target), clip(rq.Body)
 			rep.Violate(core.Violation{Kind: kind + " " + route, What: fmt.Sprintf("[%s, %s] %s %s body=%s: %s", sh.name, mode, rq.Method, clip(rq.Target), clip(rq.Body), what),
-				Replay: map[string]any{"engine": "apiwalk", "property": "C16", "store": sh.name, "auth": auth, "request": rq2}, Expected: exp, Observed: obs})
+				Replay: map[string]any{"engine": "apiwalk", "property": "C16", "store": sh.name, "auth": authMode, "request": rq2}, Expected: exp, Observed: obs})
 		}
 		if r.Code >= 500 {
 			viol("5xx", "the server answered with a 5xx", "<500", fmt.Sprintf("%d %s", r.Code, trunc(r.Body)))
